@@ -14,6 +14,13 @@ def run(ctx):
     # specification itself runs over the full alphabet two levels deeper
     res, stats, found = keys_c14.run(ctx, 1500 if quick else 15000, 6 if quick else 8, ctx.seed, check_level=8 if quick else 10, qnull=False)
     keys_c14.report(ctx, 'C14', res, stats, found)
+    # and exhaustively: every sequence of at most 2 (quick) / 3 (thorough) calls over the full alphabet
+    xstats, xfound = keys_c14.run_exhaustive(ctx, 2 if quick else 3, ctx.seed)
+    for cat, what, trace in xfound:
+        if cat in ('keys', 'crash'):
+            ctx.mismatch('C14:compkey:%s:%s:%s' % (cat, trace[-1].get('op'), trace[-1].get('out')), what, {'keys_trace': trace})
+    ctx.coverage['traces_validated_against_impl'] += xstats['sequences']
+    ctx.coverage['composite_key_model_exhaustive'] = xstats
     if not quick:
         res, stats, found = keys_c14.run(ctx, 5000, 5, ctx.seed + 1, check_level=6, qnull=True)
         for cat, what, trace in found:
